@@ -16,12 +16,15 @@ import copy
 import itertools
 import json
 
-from common import Check, LeanDriver
+from common import Check, Infra, LeanDriver
 import gen_rf678 as g
 
 PREFIX = "C7"
 POLICIES = ("patch", "recreate", "never")
-SITUATIONS = ("absent", "presentMatching", "presentDrifted", "presentNoOwnerRef", "absentConflict")
+SITUATIONS = ("absent", "presentMatching", "presentDrifted", "presentNoOwnerRef", "absentConflict",
+              "presentDriftedRejected")
+REJECT_CODES = (422, 409, 500)     # what the server answers the mutating call with in `presentDriftedRejected`
+VF_SPECS = ({"return": {"spec": {"fromFunction": 1}}}, {"return": {"spec": {"fromFunction": 2}}})
 ABSENT = ("absent", "absentConflict")     # absent as far as the load can tell
 CREATE_OVERLAY = {"metadata": {"labels": {"created-by": "koreo"}}, "spec": {"onCreate": True}}
 DEFAULTS = {"readonly": False, "owned": True, "namespaced": True, "createEnabled": True, "deleteIfExists": False,
@@ -42,13 +45,16 @@ def cells():
                                "pluralGiven": pg, "sit": sit}
 
 
+_RUN_TAG = [""]     # distinguishes several runs of one (cell, variant): set by `observe`
+
+
 def kind_of(cell: dict, variant: str, idx: int) -> tuple[str, str]:
     """With the plural omitted the first reconcile of a kind discovers it and memoises it on the kr8s
     class (which kr8s finds again for every later function of that kind), so such runs get a kind of
     their own; with the plural given one kind per scope will do."""
     if cell["pluralGiven"]:
         return g.kind_for(PREFIX, cell["namespaced"])
-    kind = f"C7x{idx}{variant[0]}{'Ns' if cell['namespaced'] else 'Cl'}"
+    kind = f"C7x{idx}{variant[0]}{_RUN_TAG[0]}{'Ns' if cell['namespaced'] else 'Cl'}"
     return kind, kind.lower() + "s"
 
 
@@ -125,7 +131,7 @@ def seed_objects(cell: dict, variant: str, idx: int, competitor: bool = False) -
         md["ownerReferences"] = refs
     live = {"apiVersion": g.API_VERSION, "kind": kind, "metadata": md, "spec": copy.deepcopy(TARGET_SPEC),
             "status": {"phase": "Active"}}
-    if sit == "presentDrifted":
+    if sit in ("presentDrifted", "presentDriftedRejected"):
         where = idx % 3
         if where == 0:
             live["spec"]["a"] = 2
@@ -136,9 +142,16 @@ def seed_objects(cell: dict, variant: str, idx: int, competitor: bool = False) -
     return {live_key(cell, variant, idx): live}
 
 
-def observe(cell: dict, variant: str, idx: int) -> dict:
+def observe(cell: dict, variant: str, idx: int, extra: dict | None = None) -> dict:
+    extra = extra or {}
+    _RUN_TAG[0] = f"c{extra['code']}" if "code" in extra else ""
     spec, written, pkind = build(cell, variant, idx)
     configure = None
+    if cell["sit"] == "presentDriftedRejected":
+        code = extra.get("code", 422)
+
+        def configure(c):      # call 0 is the load, call 1 the one mutation the mode allows
+            c.faults[1] = code
     if cell["sit"] == "absentConflict":
         # a competitor creates the object after our load and before our POST arrives: the server answers 409
         theirs = seed_objects(cell, variant, idx, competitor=True)
@@ -149,8 +162,17 @@ def observe(cell: dict, variant: str, idx: int) -> dict:
                     c.objects.update(copy.deepcopy(theirs))
                 return 0
             c.latency = arrive
-    obs = g.reconcile(spec, objects=seed_objects(cell, variant, idx), inputs={"go": cell["precond"]},
-                      owner=(g.NS, g.OWNER_REF), configure=configure)
+    if extra.get("reprepare"):
+        # the function depends on a ValueFunction (overlayRef); that one is updated, the cache re-prepares the
+        # function in the background, and what is reconciled is what the cache then holds
+        spec["overlays"] = [{"overlayRef": {"kind": "ValueFunction", "name": "c7-dependency"}}]
+        obs = g.reconcile_reprepared(spec, "c7-dependency", VF_SPECS, objects=seed_objects(cell, variant, idx),
+                                     inputs={"go": cell["precond"]}, owner=(g.NS, g.OWNER_REF), configure=configure)
+        if not obs["reprepared"]:
+            raise Infra("the cache did not re-prepare the function after its ValueFunction changed")
+    else:
+        obs = g.reconcile(spec, objects=seed_objects(cell, variant, idx), inputs={"go": cell["precond"]},
+                          owner=(g.NS, g.OWNER_REF), configure=configure)
     if not obs["prepared"]:
         return {"written": written, "pkind": pkind, "action": "not-prepared", "outcome": obs["prepare"], "spec": spec,
                 "lookups": 0}
@@ -167,8 +189,11 @@ def oracle(cell: dict, got: dict) -> str | None:
     dm = cell["deleteIfExists"]
     if a.startswith("multiple") or a == "not-prepared":
         return f"unexpected API traffic: {a}"
-    if oc == "raised":
+    rejected = cell["sit"] == "presentDriftedRejected"
+    if oc == "raised" and not (rejected and a in ("patch", "delete") and "ServerError" in got["outcome"]["what"]):
         return f"reconcile raised: {got['outcome']['what']}"
+    if rejected and a in ("patch", "delete") and oc != "raised":
+        return f"the server rejected the {a} but the reconcile reported {oc} (log {got.get('log')})"
     absent = cell["sit"] in ABSENT
     if not cell["precond"]:
         if a != "noApiAtAll" or got.get("lookups"):
@@ -227,7 +252,7 @@ def run(tier: str) -> int:
         "Lean 4.33.0 kernel; axioms of every theorem ⊆ {propext, Classical.choice, Quot.sound}",
         "model lean/Koreo/ResourceFn.lean (`decide`, `reconcile`) hand-transcribed from reconcile_resource_function / "
         "reconcile_krm_resource; flag and delay defaults regenerated by harness/extractors/RfDefaults.py",
-        "exhaustive run of all 3840 cells x 2 spec variants through the real prepare + reconcile against "
+        "exhaustive run of all 4608 cells x 2 spec variants through the real prepare + reconcile against "
         "harness/cluster.py (in-memory API with merge-patch and a request log)",
         "kr8s 0.20.7 APIObject (create/patch/delete -> call_api), celpy for the precondition and apiConfig expressions, "
         "the comparator validate_match (its answer is an input of the table)",
@@ -245,18 +270,29 @@ def run(tier: str) -> int:
     all_cells = list(cells())
     work = []
     for idx, cell in enumerate(all_cells):
+        if cell["sit"] == "presentDriftedRejected":
+            # every cell with 422 (spec variant alternating); 409 and 500 on the plural-given, no-create-overlay part
+            v = ("explicit", "omitted")[idx % 2]
+            work.append((idx, cell, v, {"code": 422}))
+            if cell["pluralGiven"] and not cell["createOverlay"]:
+                other = ("omitted", "explicit")[idx % 2]
+                work += [(idx, cell, other, {"code": 409}), (idx, cell, v, {"code": 500})]
+            continue
         for variant in ("explicit", "omitted"):
-            work.append((idx, cell, variant))
+            work.append((idx, cell, variant, {}))
+        # the sub-table that is re-prepared by the cache before it is reconciled
+        if cell["precond"] and cell["pluralGiven"] and cell["sit"] in ("absent", "presentDrifted"):
+            work.append((idx, cell, ("explicit", "omitted")[idx % 2], {"reprepare": True}))
     drv = LeanDriver("C07")
     import gc
 
     got_all = []
-    for n, (idx, cell, variant) in enumerate(work):
-        got_all.append(observe(cell, variant, idx))
+    for n, (idx, cell, variant, extra) in enumerate(work):
+        got_all.append(observe(cell, variant, idx, extra))
         if n % 400 == 399:
             gc.collect()      # the one-off kr8s classes of the plural-omitted runs
     reqs = [{"op": "cell", "flags": got["written"], "precond": cell["precond"], "sit": cell["sit"]}
-            for (idx, cell, variant), got in zip(work, got_all)]
+            for (idx, cell, variant, extra), got in zip(work, got_all)]
     try:
         answers = drv.ask(reqs)
     except Exception as e:
@@ -264,8 +300,12 @@ def run(tier: str) -> int:
         ck.notes.append(f"model driver unavailable: {e}")
         ck.build_ok = False
 
-    for (idx, cell, variant), got, ans in zip(work, got_all, answers):
+    for (idx, cell, variant, extra), got, ans in zip(work, got_all, answers):
         ck.evaluated()
+        if extra.get("reprepare"):
+            ck.count("re-prepared-by-the-cache")
+        if "code" in extra:
+            ck.count(f"rejected-with:{extra['code']}")
         a, oc = got["action"], got["outcome"]["c"]
         ck.count(f"action:{a}")
         ck.count(f"outcome:{oc}")
@@ -275,10 +315,10 @@ def run(tier: str) -> int:
         ck.count(f"discovery-calls:{got.get('lookups', 0)}")
         if cell["createOverlay"]:
             ck.count("create-overlay-written")
-        case = {"cell": cell, "variant": variant, "idx": idx, "spec": got["spec"],
+        case = {"cell": cell, "variant": variant, "idx": idx, "extra": extra, "spec": got["spec"],
                 "impl": {"action": a, "outcome": got["outcome"], "log": got.get("log")}}
         if a in ("create", "patch", "delete"):
-            ck.nontriv(json.dumps([cell, variant], sort_keys=True))
+            ck.nontriv(json.dumps([cell, variant, extra], sort_keys=True))
         if idx % 97 == 0 and variant == "explicit":
             ck.sample(case)
         bad = oracle(cell, got)
@@ -287,7 +327,7 @@ def run(tier: str) -> int:
         if ans is not None:
             model, mine = compare(ans, got)
             if model != mine:
-                ck.disagree({"cell": cell, "variant": variant, "idx": idx, "spec": got["spec"]}, model, mine,
+                ck.disagree({"cell": cell, "variant": variant, "idx": idx, "extra": extra, "spec": got["spec"]}, model, mine,
                             "table-cell: action/outcome-class/retry-delay")
     ck.cov["exhaustive"] = True
     ck.cov["cells"] = len(all_cells)
@@ -296,9 +336,13 @@ def run(tier: str) -> int:
         rule="exhaustive: all 2^5 flag combinations x 3 update policies x 2 precondition results x create.overlay "
              "written or not x apiConfig.plural given or to be discovered (cold cache, a kind of its own) x 5 cluster "
              "situations (absent, matching, drifted, no owner reference, absent at the load with a competitor creating "
-             "the object before our POST: 409) = 3840 cells, each as a real prepared ResourceFunction in two spec "
-             "variants (every key explicit / every default-valued key omitted), reconciled once against a freshly "
-             "seeded cluster; discovery (lookup_kind) calls are logged as API calls; "
+             "the object before our POST: 409, drifted with the server rejecting the mutating call) = 4608 cells, each "
+             "as a real prepared ResourceFunction in two spec variants (every key explicit / every default-valued key "
+             "omitted), reconciled once against a freshly seeded cluster; the rejected-mutation cells run in one spec "
+             "variant (alternating) with status 422, and with 409 and 500 on the plural-given / no-create-overlay part; additionally the sub-table {preconditions pass, "
+             "plural given, absent | drifted} (768 cells) is run once more with the function depending on an overlayRef "
+             "ValueFunction that is updated, so that the cache re-prepares the function in the background and the "
+             "re-prepared function is what gets reconciled; discovery (lookup_kind) calls are logged as API calls; "
              "non-trivial = the run made a mutating call; distinct by cell+variant",
     )
 
@@ -308,14 +352,14 @@ def replay(path: str) -> int:
     rc = 0
     for v in data.get("violations", []):
         case = v["case"]
-        got = observe(case["cell"], case["variant"], case["idx"])
+        got = observe(case["cell"], case["variant"], case["idx"], case.get("extra"))
         bad = oracle(case["cell"], got)
         print("replay:", json.dumps(case["cell"]), case["variant"], "->", got["action"], got["outcome"], "::", bad)
         rc = rc or (1 if bad else 0)
     for d in data.get("no_longer_checks", []):
         if d.get("kind") == "correspondence":
             case = d["case"]
-            got = observe(case["cell"], case["variant"], case["idx"])
+            got = observe(case["cell"], case["variant"], case["idx"], case.get("extra"))
             ans = LeanDriver("C07").ask([{"op": "cell", "flags": got["written"], "precond": case["cell"]["precond"],
                                           "sit": case["cell"]["sit"]}])[0]
             model, mine = compare(ans, got)
